@@ -1,0 +1,356 @@
+//go:build verif
+
+// Contracts for the step scheduler (comment-only file; no executable code).
+// Checked by /verif/govc against the SSA of this package on every run.
+
+package scheduler
+
+//@ pred dep_ok(n *Node) = n.data.State.Status == NodeStatusSuccess ||
+//@      (n.data.State.Status == NodeStatusError   && n.data.Step.ContinueOn.Failure) ||
+//@      (n.data.State.Status == NodeStatusSkipped && n.data.Step.ContinueOn.Skipped)
+//@
+//@ pred cancel_blocker(n *Node) = (n.data.State.Status == NodeStatusError && !n.data.Step.ContinueOn.Failure) ||
+//@      n.data.State.Status == NodeStatusCancel
+//@ pred skip_blocker(n *Node) = n.data.State.Status == NodeStatusSkipped && !n.data.Step.ContinueOn.Skipped
+//@
+//@ pred graph_wf(g *ExecutionGraph) =
+//@      (forall k int :: has(g.dict, k) ==> g.dict[k] != nil) &&
+//@      (forall k int, j int :: 0 <= j && j < len(g.to[k]) ==> has(g.dict, g.to[k][j]))
+
+//@ fn (*Node).State(n) (s)
+//@   props C01 C02 C03 C04 C15
+//@   ensures s == n.data.State
+
+//@ fn (*Node).setStatus(n, status)
+//@   props C01 C02 C03 C04 C15
+//@   modifies n.data.State.Status
+//@   ensures n.data.State.Status == status
+
+//@ fn (*Node).SetError(n, err)
+//@   props C01 C02
+//@   modifies n.data.State.Error
+//@   ensures n.data.State.Error == err
+
+//@ fn (*ExecutionGraph).node(g, id) (n)
+//@   props C01 C02
+//@   ensures n == g.dict[id]
+//@   ensures n == nil || allocated(n)
+
+//@ fn isReady(g, node) (ready)
+//@   props C01 C02
+//@   safety
+//@   requires graph_wf(g)
+//@   requires node.data.State.Status == NodeStatusNone
+//@   modifies node.data.State.Status, node.data.State.Error
+//@   ensures [C01 ready_iff_deps_ok] ready <==>
+//@        (forall j int :: 0 <= j && j < len(g.to[node.id]) ==> old(dep_ok(g.dict[g.to[node.id][j]])))
+//@   ensures [C01 ready_keeps_status] ready ==> node.data.State.Status == old(node.data.State.Status)
+//@   ensures [C02 label_justified] node.data.State.Status == old(node.data.State.Status) ||
+//@        (node.data.State.Status == NodeStatusCancel &&
+//@           (exists j int :: 0 <= j && j < len(g.to[node.id]) && old(cancel_blocker(g.dict[g.to[node.id][j]])))) ||
+//@        (node.data.State.Status == NodeStatusSkipped &&
+//@           (exists j int :: 0 <= j && j < len(g.to[node.id]) && old(skip_blocker(g.dict[g.to[node.id][j]]))))
+//@   ensures [C02 blocked_is_marked]
+//@        (exists j int :: 0 <= j && j < len(g.to[node.id]) &&
+//@             (old(cancel_blocker(g.dict[g.to[node.id][j]])) || old(skip_blocker(g.dict[g.to[node.id][j]]))))
+//@        ==> node.data.State.Status != NodeStatusNone
+//@   loop 0 invariant [C01 ready_prefix] ready <==>
+//@        (forall j int :: 0 <= j && j <= idx ==> old(dep_ok(g.dict[g.to[node.id][j]])))
+//@   loop 0 invariant [C01 ready_unchanged] ready ==> node.data.State.Status == old(node.data.State.Status)
+//@   loop 0 invariant [C02 label_prefix] node.data.State.Status == old(node.data.State.Status) ||
+//@        (node.data.State.Status == NodeStatusCancel &&
+//@           (exists j int :: 0 <= j && j <= idx && old(cancel_blocker(g.dict[g.to[node.id][j]])))) ||
+//@        (node.data.State.Status == NodeStatusSkipped &&
+//@           (exists j int :: 0 <= j && j <= idx && old(skip_blocker(g.dict[g.to[node.id][j]]))))
+//@   loop 0 invariant [C02 marked_prefix]
+//@        (exists j int :: 0 <= j && j <= idx &&
+//@             (old(cancel_blocker(g.dict[g.to[node.id][j]])) || old(skip_blocker(g.dict[g.to[node.id][j]]))))
+//@        ==> node.data.State.Status != NodeStatusNone
+
+// ---------------------------------------------------------------------------------------------
+// Status vector abstractions
+
+//@ sfunc status_at(g *ExecutionGraph, i int) NodeStatus = g.nodes[i].data.State.Status
+//@
+//@ sfunc count_running(g *ExecutionGraph, n int) int rec =
+//@      ite(n <= 0, 0, count_running(g, n - 1) + ite(status_at(g, n - 1) == NodeStatusRunning, 1, 0))
+//@
+//@ pred nodes_wf(g *ExecutionGraph) = forall i int :: 0 <= i && i < len(g.nodes) ==> g.nodes[i] != nil
+//@ pred any_running(g *ExecutionGraph) = exists i int :: 0 <= i && i < len(g.nodes) && status_at(g, i) == NodeStatusRunning
+//@ pred all_done_ok(g *ExecutionGraph) = forall i int :: 0 <= i && i < len(g.nodes) ==>
+//@      (status_at(g, i) == NodeStatusSuccess || status_at(g, i) == NodeStatusSkipped)
+//@ pred all_finished(g *ExecutionGraph) = forall i int :: 0 <= i && i < len(g.nodes) ==>
+//@      (status_at(g, i) != NodeStatusRunning && status_at(g, i) != NodeStatusNone)
+
+//@ fn (*ExecutionGraph).Nodes(g) (r)
+//@   props C01 C02 C03 C04 C05 C15
+//@   ensures r == g.nodes
+//@   ensures r == nil || allocated(r)
+
+//@ fn (*ExecutionGraph).IsStarted(g) (r)
+//@   props C04
+//@   ensures r <==> g.startedAt != 0
+
+//@ fn (*ExecutionGraph).IsRunning(g) (r)
+//@   props C04 C05
+//@   safety
+//@   requires nodes_wf(g)
+//@   ensures [C04 is_running] r <==> any_running(g)
+//@   loop 0 invariant forall i int :: 0 <= i && i <= idx ==> status_at(g, i) != NodeStatusRunning
+
+//@ fn (*Scheduler).isCanceled(sc) (r)
+//@   props C04 C05 C01
+//@   ensures r <==> sc.canceled == 1
+
+//@ fn (*Scheduler).setCanceled(sc)
+//@   props C05
+//@   modifies sc.canceled
+//@   ensures sc.canceled == 1
+
+//@ fn (*Scheduler).isError(sc) (r)
+//@   props C04
+//@   ensures r <==> sc.lastError != nil
+
+//@ fn (*Scheduler).setLastError(sc, err)
+//@   props C04
+//@   modifies sc.lastError
+//@   ensures sc.lastError == err
+
+//@ fn (*Scheduler).isSucceed(sc, g) (r)
+//@   props C04
+//@   safety
+//@   requires nodes_wf(g)
+//@   ensures [C04 is_succeed] r <==> all_done_ok(g)
+//@   loop 0 invariant forall i int :: 0 <= i && i <= idx ==>
+//@        (status_at(g, i) == NodeStatusSuccess || status_at(g, i) == NodeStatusSkipped)
+
+//@ fn (*Scheduler).isFinished(sc, g) (r)
+//@   props C02 C04
+//@   safety
+//@   requires nodes_wf(g)
+//@   ensures [C02 is_finished] r <==> all_finished(g)
+//@   loop 0 invariant forall i int :: 0 <= i && i <= idx ==>
+//@        (status_at(g, i) != NodeStatusRunning && status_at(g, i) != NodeStatusNone)
+
+//@ fn (*Scheduler).runningCount(sc, g) (r)
+//@   props C15
+//@   safety
+//@   requires nodes_wf(g)
+//@   ensures [C15 counts_running] r == count_running(g, len(g.nodes))
+//@   loop 0 invariant count == count_running(g, idx + 1)
+
+// The run outcome as a total function of (cancel flag, started, node states, last error) — C04.
+//@ sfunc spec_status(canceled bool, allok bool, started bool, running bool, iserr bool) Status =
+//@      ite(canceled && !allok, StatusCancel,
+//@      ite(!started, StatusNone,
+//@      ite(running, StatusRunning,
+//@      ite(iserr, StatusError, StatusSuccess))))
+
+//@ fn (*Scheduler).Status(sc, g) (s)
+//@   props C04
+//@   requires nodes_wf(g)
+//@   ensures [C04 spec_status] s == spec_status(sc.canceled == 1, all_done_ok(g), g.startedAt != 0, any_running(g), sc.lastError != nil)
+
+// ---------------------------------------------------------------------------------------------
+// The scheduling loop (role L) — sequential contracts; the rely/guarantee variant is further below.
+
+//@ ghost launch map[*Node]int      // how many worker activations were spawned for a node
+//@ ghost hruns int                 // number of handler executions so far
+//@ ghost hlog map[int]*Node        // the handler node of the k-th handler execution
+
+//@ sfunc handler_for(s Status) dag.HandlerType =
+//@      ite(s == StatusSuccess, dag.HandlerOnSuccess,
+//@      ite(s == StatusError, dag.HandlerOnFailure,
+//@      ite(s == StatusCancel, dag.HandlerOnCancel, dag.HandlerOnExit)))
+//@ sfunc outcome(sc *Scheduler, g *ExecutionGraph) Status =
+//@      spec_status(sc.canceled == 1, all_done_ok(g), g.startedAt != 0, any_running(g), sc.lastError != nil)
+
+//@ fn (*ExecutionGraph).Start(g)
+//@   props C04
+//@   modifies g.startedAt
+//@   ensures g.startedAt != 0
+
+//@ fn (*ExecutionGraph).Finish(g)
+//@   props C04
+//@   modifies g.finishedAt
+
+//@ fn (*Scheduler).setup(sc, ctx) (err)
+//@   props C04
+//@   trusted
+//@   modifies sc.handlers, heap(map(dag.HandlerType, *Node)), heap(alloc), ghost eff.env, ghost eff.fs
+
+//@ fn (*Scheduler).runHandlerNode(sc, ctx, node) (err)
+//@   props C04
+//@   trusted
+//@   modifies node.data.State, node.data.Step, ghost hruns, ghost hlog, ghost eff.exec, ghost eff.fs, ghost eff.env
+//@   ensures err == nil
+//@   ensures hruns == old(hruns) + 1 && hlog == upd(old(hlog), old(hruns), node)
+
+// ---------------------------------------------------------------------------------------------
+// Node resources and execution (ghost counters make "how often" and "in which order" expressible)
+
+//@ ghost nsetup map[*Node]int      // successful or failed resource set-ups of a node (log/stdout/stderr/script files)
+//@ ghost nexec map[*Node]int       // executions of a node's command begun
+//@ ghost execfail map[*Node]bool   // the last execution of the node returned an error
+//@ ghost dirty map[*Node]bool      // the node has executed since its resources were last torn down
+//@ ghost ntear map[*Node]int       // teardowns of a node's resources
+
+//@ fn (*Node).setup(n, logDir, requestID) (err)
+//@   props C03 C12
+//@   trusted
+//@   modifies n.data.State.StartedAt, n.data.State.Log, n.data.State.Error, n.data.Step.CmdWithArgs, n.data.Step.Stdout,
+//@            n.data.Step.Stderr, n.data.Step.Dir, n.logFile, n.logWriter, n.stdoutFile, n.stdoutWriter, n.stderrFile,
+//@            n.stderrWriter, n.scriptFile, ghost nsetup, ghost eff.env, ghost eff.fs
+//@   ensures nsetup == upd(old(nsetup), n, old(nsetup[n]) + 1)
+
+//@ fn (*Node).Execute(n, ctx) (err)
+//@   props C03 C11 C12
+//@   trusted
+//@   modifies n.data.State.Error, n.data.Step.Command, n.data.Step.Args, n.cmd, n.cancelFunc, n.outputReader, n.outputWriter,
+//@            ghost nexec, ghost execfail, ghost dirty, ghost eff.exec, ghost eff.env, ghost eff.fs
+//@   ensures nexec == upd(old(nexec), n, old(nexec[n]) + 1)
+//@   ensures execfail == upd(old(execfail), n, err != nil)
+//@   ensures dirty == upd(old(dirty), n, true)
+
+//@ fn (*Node).teardown(n) (err)
+//@   props C03 C12
+//@   trusted
+//@   modifies n.done, n.data.State.Error, ghost dirty, ghost ntear, ghost eff.fs
+//@   ensures dirty == upd(old(dirty), n, false)
+//@   ensures ntear == upd(old(ntear), n, old(ntear[n]) + 1)
+
+// dry-run gating (C03): with sc.dry none of the three touches a node, a file or a process
+//@ fn (*Scheduler).setupNode(sc, node) (err)
+//@   props C03 C12
+//@   modifies node.data.State.StartedAt, node.data.State.Log, node.data.State.Error, node.data.Step.CmdWithArgs, node.data.Step.Stdout,
+//@            node.data.Step.Stderr, node.data.Step.Dir, node.logFile, node.logWriter, node.stdoutFile, node.stdoutWriter, node.stderrFile,
+//@            node.stderrWriter, node.scriptFile, ghost nsetup, ghost eff.env, ghost eff.fs
+//@   ensures [C03 dry_no_setup] sc.dry ==> err == nil && nsetup == old(nsetup) && eff.fs == old(eff.fs) && eff.env == old(eff.env) &&
+//@        node.data.State.Error == old(node.data.State.Error)
+//@   ensures !sc.dry ==> nsetup == upd(old(nsetup), node, old(nsetup[node]) + 1)
+
+//@ fn (*Scheduler).execNode(sc, ctx, n) (err)
+//@   props C03 C12
+//@   modifies n.data.State.Error, n.data.Step.Command, n.data.Step.Args, n.cmd, n.cancelFunc, n.outputReader, n.outputWriter,
+//@            ghost nexec, ghost execfail, ghost dirty, ghost eff.exec, ghost eff.env, ghost eff.fs
+//@   ensures [C03 dry_no_exec] sc.dry ==> err == nil && nexec == old(nexec) && eff.exec == old(eff.exec) && eff.fs == old(eff.fs) &&
+//@        eff.env == old(eff.env) && dirty == old(dirty) && execfail == old(execfail)
+//@   ensures !sc.dry ==> nexec == upd(old(nexec), n, old(nexec[n]) + 1) && execfail == upd(old(execfail), n, err != nil) &&
+//@        dirty == upd(old(dirty), n, true)
+
+//@ fn (*Scheduler).teardownNode(sc, node) (err)
+//@   props C03 C12
+//@   modifies node.done, node.data.State.Error, ghost dirty, ghost ntear, ghost eff.fs
+//@   ensures [C03 dry_no_teardown] sc.dry ==> err == nil && ntear == old(ntear) && dirty == old(dirty) && eff.fs == old(eff.fs)
+//@   ensures [C12 teardown_cleans] !sc.dry ==> dirty == upd(old(dirty), node, false) && ntear == upd(old(ntear), node, old(ntear[node]) + 1)
+
+//@ fn (*Node).setErr(n, err)
+//@   props C02 C03
+//@   modifies n.data.State.Error, n.data.State.Status
+//@   ensures n.data.State.Error == err && n.data.State.Status == NodeStatusError
+
+//@ fn (*Node).incRetryCount(n)
+//@   props C03
+//@   modifies n.data.State.RetryCount
+//@   ensures n.data.State.RetryCount == old(n.data.State.RetryCount) + 1
+
+//@ fn (*Node).getRetryCount(n) (r)
+//@   props C03
+//@   ensures r == n.data.State.RetryCount
+
+//@ fn (*Node).incDoneCount(n)
+//@   props C03
+//@   modifies n.data.State.DoneCount
+//@   ensures n.data.State.DoneCount == old(n.data.State.DoneCount) + 1
+
+//@ fn (*Node).setRetriedAt(n, t)
+//@   props C03
+//@   modifies n.data.State.RetriedAt
+
+//@ fn (*Node).finish(n)
+//@   props C03
+//@   modifies n.data.State.FinishedAt
+
+//@ fn (*Scheduler).isTimeout(sc, startedAt) (r)
+//@   props C03 C05
+//@   ensures r ==> sc.timeout > 0
+
+// The worker goroutine W(node): thread precondition, the ghost effect of spawning it, and its sequential
+// contract (no stop request, no timeout configured, non-repeating step).
+//@ pred w_scope(sc *Scheduler, node *Node) = !node.data.Step.RepeatPolicy.Repeat && sc.timeout == 0 && sc.canceled != 1 && !sc.dry
+//@
+//@ fn (*Scheduler).Schedule$1(node)
+//@   props C01 C02 C03 C12
+//@   requires [flipped_before_spawn] node.data.State.Status != NodeStatusNone
+//@   requires sc != nil
+//@   modifies *
+//@   spawn modifies ghost launch
+//@   spawn ensures launch == upd(old(launch), node, old(launch[node]) + 1)
+//@   ensures [C03 at_most_one_execution] old(w_scope(sc, node)) ==>
+//@        (nexec == old(nexec) || nexec == upd(old(nexec), node, old(nexec[node]) + 1))
+//@   ensures [C03 one_setup_per_activation] old(!sc.dry) ==> nsetup == upd(old(nsetup), node, old(nsetup[node]) + 1)
+//@   ensures [C03 retry_release_is_bounded] old(w_scope(sc, node)) && node.data.State.Status == NodeStatusNone && old(node.data.State.Status) == NodeStatusRunning ==>
+//@        (node.data.Step.RetryPolicy != nil && old(node.data.State.RetryCount) < node.data.Step.RetryPolicy.Limit &&
+//@         node.data.State.RetryCount == old(node.data.State.RetryCount) + 1 && nexec[node] == old(nexec[node]) + 1 && execfail[node])
+//@   ensures [C03 retry_count_bounded] old(w_scope(sc, node)) ==>
+//@        (node.data.State.RetryCount == old(node.data.State.RetryCount) ||
+//@         (node.data.Step.RetryPolicy != nil && old(node.data.State.RetryCount) < node.data.Step.RetryPolicy.Limit &&
+//@          node.data.State.RetryCount == old(node.data.State.RetryCount) + 1 && execfail[node]))
+//@   ensures [C03 retry_count_only_on_release] old(w_scope(sc, node)) && old(node.data.State.Status) == NodeStatusRunning &&
+//@        node.data.State.RetryCount != old(node.data.State.RetryCount) ==>
+//@        (node.data.State.Status == NodeStatusNone || (node.data.State.Status == NodeStatusError && sc.lastError != nil))
+//@   ensures [C02 failed_step_labelled_failed] old(w_scope(sc, node)) && old(node.data.State.Status) == NodeStatusRunning &&
+//@        nexec[node] == old(nexec[node]) + 1 && execfail[node] ==>
+//@        (node.data.State.Status == NodeStatusError || node.data.State.Status == NodeStatusNone)
+//@   ensures [C02 failed_step_sets_run_error] old(w_scope(sc, node)) && old(node.data.State.Status) == NodeStatusRunning &&
+//@        node.data.State.Status == NodeStatusError ==> sc.lastError != nil
+//@   ensures [C02 clean_step_labelled_finished] old(w_scope(sc, node)) && old(node.data.State.Status) == NodeStatusRunning &&
+//@        nexec[node] == old(nexec[node]) + 1 && !execfail[node] ==>
+//@        (node.data.State.Status == NodeStatusSuccess || (node.data.State.Status == NodeStatusError && sc.lastError != nil))
+//@   ensures [C02 setup_failure_labelled_failed] old(w_scope(sc, node)) && nexec == old(nexec) && old(node.data.State.Status) == NodeStatusRunning ==>
+//@        (node.data.State.Status == NodeStatusError && sc.lastError != nil)
+//@   ensures [C12 torn_down_after_last_execution] old(!sc.dry) ==> !dirty[node]
+//@   loop 0 invariant sc == old(sc) && node == old(node) && w_scope(sc, node) == old(w_scope(sc, node)) && sc.dry == old(sc.dry)
+//@   loop 0 invariant old(!sc.dry) ==> nsetup == upd(old(nsetup), node, old(nsetup[node]) + 1)
+//@   loop 0 invariant [a] old(w_scope(sc, node)) ==> nexec == old(nexec)
+//@   loop 0 invariant [b] old(w_scope(sc, node)) ==> node.data.State.RetryCount == old(node.data.State.RetryCount)
+//@   loop 0 invariant [c] old(w_scope(sc, node)) ==> node.data.Step.RetryPolicy == old(node.data.Step.RetryPolicy)
+//@   loop 0 invariant [d] old(w_scope(sc, node)) ==> (setupSucceed ==> node.data.State.Status == old(node.data.State.Status))
+//@   loop 0 invariant [e] old(w_scope(sc, node)) ==> (!setupSucceed ==> node.data.State.Status == NodeStatusError && sc.lastError != nil)
+
+//@ fn (*Scheduler).Schedule(sc, ctx, g, done) (err)
+//@   props C01 C02 C03 C04 C05 C11 C15
+//@   requires nodes_wf(g) && graph_wf(g)
+//@   requires forall i int :: 0 <= i && i < len(g.nodes) ==> has(g.dict, g.nodes[i].id)
+//@   modifies *
+//@   expect calls go (*Scheduler).Schedule$1 >= 1
+//@   expect calls isReady >= 1
+//@   assert before go [C01 deps_ok_at_launch]
+//@        forall j int :: 0 <= j && j < len(g.to[arg0.id]) ==> dep_ok(g.dict[g.to[arg0.id][j]])
+//@   assert before go [C03 running_before_spawn] arg0.data.State.Status == NodeStatusRunning
+//@   assert before (*Node).setStatus#1 [C03 launched_from_none] arg0.data.State.Status == NodeStatusNone && arg1 == NodeStatusRunning
+//@   assert before (*Node).setStatus#1 [C15 below_limit]
+//@        sc.maxActiveRuns > 0 ==> count_running(g, len(g.nodes)) < sc.maxActiveRuns
+//@   assert before go [C05 not_canceled_at_launch] sc.canceled != 1
+//@   assert before go [C01 launches_graph_node] arg0 == g.nodes[idx + 1]
+//@   loop 1 step [C02 precondition_failure_skips]
+//@        eff.condfail != iter(eff.condfail) ==>
+//@           (g.nodes[idx].data.State.Status == NodeStatusSkipped && launch == iter(launch))
+//@   loop 1 step [C03 at_most_one_launch_per_visit]
+//@        launch == iter(launch) ||
+//@        (launch == upd(iter(launch), g.nodes[idx], iter(launch[g.nodes[idx]]) + 1) &&
+//@         iter(g.nodes[idx].data.State.Status) == NodeStatusNone)
+//@   loop 1 step [C02 only_none_nodes_are_marked]
+//@        forall i int :: 0 <= i && i < len(g.nodes) ==>
+//@           (g.nodes[i].data.State.Status == iter(g.nodes[i].data.State.Status) ||
+//@            (g.nodes[i] == g.nodes[idx] && iter(g.nodes[i].data.State.Status) == NodeStatusNone))
+//@   assert before (*Scheduler).runHandlerNode [C04 handlers_after_wait] eff.waited > old(eff.waited)
+//@   assert before (*Scheduler).runHandlerNode [C04 handler_is_configured] arg2 != nil && arg2 == sc.handlers[h] && h == handlers[idx + 1]
+//@   assert before (*Scheduler).runHandlerNode [C11 handler_gets_outputs] arg2.data.Step.OutputVariables == g.outputVariables
+//@   loop 2 invariant [C04 handler_list_shape]
+//@        (len(handlers) == 1 || len(handlers) == 2) && handlers[len(handlers) - 1] == dag.HandlerOnExit &&
+//@        (len(handlers) == 2 ==> handlers[0] != dag.HandlerOnExit)
+//@   loop 2 invariant [C04 handler_matches_outcome]
+//@        idx == -1 ==> ((len(handlers) == 2 ==> handlers[0] == handler_for(outcome(sc, g))) &&
+//@                       (len(handlers) == 1 ==> (outcome(sc, g) == StatusNone || outcome(sc, g) == StatusRunning)))
+//@   loop 2 invariant [C04 handlers_run_in_order] hruns <= old(hruns) + idx + 1
